@@ -11,6 +11,10 @@ template <
   , typename TApex
 >
 class R_ {
+#ifdef HFSM2_VERIF // verification hook: read-only probe
+	friend struct ::hfsm2_verif::Probe;
+#endif
+
 public:
 	static constexpr FeatureTag FEATURE_TAG = TConfig::FEATURE_TAG;
 
